@@ -642,6 +642,9 @@ def oracle_c02(nodes, ev, outcomes, states_end, states_settled, stop, viol, rec,
                                for e in ev):
                 own = True
             model[n] = {'component_shutdown', st} if own else {'component_shutdown'}
+            if own and st == 'failed' and states_settled.get(n) == 'failed':
+                # its own unrecoverable exit was judged before the stop took effect: the stage has a failed component
+                unrecoverable.append(n)
             continue
         if st == 'failed':
             unrecoverable.append(n)
